@@ -693,9 +693,14 @@ package server
 //@   call publishActivityEvent requires [op-mapping] (log.Op == proto.Op_CREATE_STREAM ==> arg1.Op == client.ActivityStreamOp_CREATE_STREAM) && (log.Op == proto.Op_DELETE_STREAM ==> arg1.Op == client.ActivityStreamOp_DELETE_STREAM) && (log.Op == proto.Op_PAUSE_STREAM ==> arg1.Op == client.ActivityStreamOp_PAUSE_STREAM) && (log.Op == proto.Op_RESUME_STREAM ==> arg1.Op == client.ActivityStreamOp_RESUME_STREAM) && (log.Op == proto.Op_SET_STREAM_READONLY ==> arg1.Op == client.ActivityStreamOp_SET_STREAM_READONLY) && (log.Op == proto.Op_JOIN_CONSUMER_GROUP ==> arg1.Op == client.ActivityStreamOp_JOIN_CONSUMER_GROUP) && (log.Op == proto.Op_LEAVE_CONSUMER_GROUP ==> arg1.Op == client.ActivityStreamOp_LEAVE_CONSUMER_GROUP)
 
 // publishActivityEvent: publish first, then record exactly this event's id through Raft (at least once, never lost)
+// (the publish must WAIT for its acknowledgement: apiServer.publish treats a context without a deadline as
+// fire-and-forget and reports success without any ack, so the context handed over is the one made by WithTimeout)
+//@ ghost var timedCtx context.Context
 //@ func (*activityManager).publishActivityEvent serves C18
 //@   requires a != nil && event != nil
 //@   ghost at entry: ghost.pubOK := false
+//@   ghost after call WithTimeout: ghost.timedCtx := ret0
+//@   call Publish requires [the-publish-waits-for-its-acknowledgement] arg1 == ghost.timedCtx
 //@   ghost after call Publish: ghost.pubOK := ret1 == nil
 //@   call applyOperation requires [published-before-recorded] ghost.pubOK && arg2.Op == proto.Op_PUBLISH_ACTIVITY && arg2.PublishActivityOp.RaftIndex == event.Id
 //@   ensures [success-means-published] result == nil ==> ghost.pubOK
